@@ -21,7 +21,7 @@ var commonAssume = []string{
 }
 
 func allChecks() []*CheckDef {
-	return []*CheckDef{checkC02(), checkC03(), checkC12(), checkC13(), checkC14(), checkC09(), checkC11(), checkC20()}
+	return []*CheckDef{checkC02(), checkC03(), checkC12(), checkC13(), checkC14(), checkC09(), checkC11(), checkC20(), checkC17()}
 }
 
 func checkC03() *CheckDef {
@@ -323,5 +323,56 @@ func checkC20() *CheckDef {
 			}
 		},
 		Assume: append(append([]string{}, commonAssume...), "fmt.Sprintf formats concrete string/integer arguments for real in this check (engine mini-formatter), so diagnostics can be classified by their text"),
+	}
+}
+
+const genPkg = "go.uber.org/thriftrw/gen"
+const intPluginPkg = "go.uber.org/thriftrw/internal/plugin"
+
+var pkgGen17 = PkgDef{Path: genPkg, Dir: "gen", Name: "gen", Files: []string{"gen/zz_h17.go"}, Rewrites: []Rewrite{
+	{File: "generate.go", Old: "generateModule(m, importer, genBuilder, o)", New: "zzGenerateModule(m, importer, genBuilder, o)", Count: 1},
+	{File: "generate.go", Old: "os.MkdirAll(", New: "zzMkdirAll(", Count: 1},
+	{File: "generate.go", Old: "os.WriteFile(", New: "zzWriteFile(", Count: 1},
+	{File: "generate.go", Old: "func mergeFiles(", New: "var _ os.FileMode\n\nfunc mergeFiles(", Count: 1},
+}}
+
+var pkgIntPlugin = PkgDef{Path: intPluginPkg, Dir: "internal/plugin", Name: "plugin", Files: []string{"internal_plugin/zz_export.go"}}
+
+func checkC17() *CheckDef {
+	type bnd struct {
+		l, plugins, files int
+		probe             []int
+	}
+	bounds := func(tier string) bnd {
+		if tier == "thorough" {
+			return bnd{l: 5, plugins: 2, files: 2, probe: []int{10, 11, 12, 13}}
+		}
+		return bnd{l: 4, plugins: 2, files: 1, probe: []int{11}}
+	}
+	return &CheckDef{
+		ID:   "C17",
+		Pkgs: []PkgDef{pkgGen17, pkgIntPlugin},
+		Harnesses: func(tier string) []*sym.HarnessConfig {
+			b := bounds(tier)
+			var out []*sym.HarnessConfig
+			out = append(out, &sym.HarnessConfig{Name: "h17", Pkg: genPkg, Params: map[string]int{"l": b.l, "plugins": 1, "files": b.files, "fixedlen": 0}, Budget: 5000000, AllMapOrders: true})
+			out = append(out, &sym.HarnessConfig{Name: "h17", Pkg: genPkg, Params: map[string]int{"l": b.l - 1, "plugins": 2, "files": 1, "fixedlen": 0}, Budget: 5000000, AllMapOrders: true})
+			// collision probes: one plugin file whose path has exactly the length of the core path +1 / +2
+			for _, l := range b.probe {
+				out = append(out, &sym.HarnessConfig{Name: "h17", Pkg: genPkg, Params: map[string]int{"l": l, "plugins": 1, "files": 1, "fixedlen": 1}, Budget: 5000000, AllMapOrders: true})
+			}
+			out = append(out, &sym.HarnessConfig{Name: "h17_witness", Pkg: genPkg, Params: map[string]int{"l": 1, "plugins": 1, "files": 1, "fixedlen": 0}, ExpectViolation: true})
+			return out
+		},
+		Bounds: func(tier string) map[string]interface{} {
+			b := bounds(tier)
+			return map[string]interface{}{
+				"plugins": b.plugins, "files_per_plugin": b.files, "plugin_path_len": fmt.Sprintf("1..%d arbitrary bytes (1..%d with two plugins); plus single paths of exactly %v arbitrary bytes (the core path foo/foo.go has 10)", b.l, b.l-1, b.probe),
+				"faults": "none / core generator / each plugin", "map_iteration": "all orders", "plugin_order": "all orders (concurrent.Range modelled sequentially in every order)",
+				"stubs": "generateModule (template expansion) replaced by a stub with the same path computation; os.MkdirAll/os.WriteFile replaced by recorders (textual redirection of the current gen/generate.go, used for symbolic run and native replay alike)",
+				"outside": "real file-system effects, failures inside the write loop, main.go ancestry checks, handshake failures (C16)",
+			}
+		},
+		Assume: commonAssume,
 	}
 }
